@@ -324,6 +324,17 @@ func C18(c *core.Ctx) {
 			c.Infra("%s: expected the model to violate Intact, got %q", cfg, r.Violated)
 		}
 	}
+	// unbounded: an inductive invariant (Apalache) shows TargetIntact for every length of the new contents
+	for _, ob := range [][]string{
+		{"--cinit=ConstInit", "--init=Init", "--inv=IndInv", "--length=0"},
+		{"--cinit=ConstInit", "--init=IndInit", "--inv=IndInv", "--length=1"},
+		{"--cinit=ConstInit", "--init=IndInit", "--inv=TargetIntact", "--length=0"},
+	} {
+		if !c.Apalache("AtomicWriteInd.tla", ob...) {
+			c.Infra("Apalache obligation %v of AtomicWriteInd not discharged", ob)
+		}
+	}
+	c.Set("checker_cmd", "apalache-mc check --cinit=ConstInit --init=IndInit --inv=IndInv --length=1 spec/apalache/AtomicWriteInd.tla (plus base case and IndInv => TargetIntact)")
 	knut := c.Knut("")
 	root := filepath.Join(c.Work, "c18")
 	os.MkdirAll(root, 0o755)
